@@ -109,6 +109,34 @@ func genC07(r *simrt.Rand, idx int, tier string) ConcCase {
 		id++
 		c.Init = append(c.Init, Op{K: "set", Key: k, ID: id, Size: smallSize(r)})
 	}
+	if idx%5 == 4 {
+		// small: one or two snapshot transactions have already written the hot key and only commit
+		// in the concurrent phase; one or two others begin meanwhile, read the key, write it, commit.
+		// Whatever instant a commit takes effect at, a transaction that read the old value afterwards
+		// began before that instant and must be refused.
+		hot := c.Keys[0]
+		nt := 1 + r.Intn(2)
+		for t := 1; t <= nt; t++ {
+			id++
+			c.Init = append(c.Init, Op{K: "begin", Tx: t, Level: 2 + r.Intn(2)}, Op{K: "set", Tx: t, Key: hot, ID: id, Size: 9 + r.Intn(40)})
+		}
+		for t := 1; t <= nt; t++ {
+			ops := []Op{{K: "commit", Tx: t}}
+			if r.Intn(3) == 0 {
+				ops = append([]Op{{K: "yield", N: r.Intn(20)}}, ops...)
+			}
+			c.Clients = append(c.Clients, ops)
+		}
+		for l := 0; l < 1+r.Intn(2); l++ {
+			tx := nt + 1 + l
+			id++
+			c.Clients = append(c.Clients, []Op{{K: "yield", N: r.Intn(30)}, {K: "begin", Tx: tx, Level: 2 + r.Intn(2)}, {K: "get", Tx: tx, Key: hot},
+				{K: "set", Tx: tx, Key: hot, ID: id, Size: 9 + r.Intn(40)}, {K: "commit", Tx: tx}})
+		}
+		c.Sched = genSched(r, 300)
+		c.Sched.MaxSteps = 600_000
+		return c
+	}
 	nt := 2 + r.Intn(2)
 	for t := 1; t <= nt; t++ {
 		c.Init = append(c.Init, Op{K: "begin", Tx: t, Level: 2 + r.Intn(2)})
@@ -149,11 +177,11 @@ func genC07(r *simrt.Rand, idx int, tier string) ConcCase {
 		}
 		c.Clients = append(c.Clients, ops)
 	}
-	if r.Intn(3) == 0 {
+	for late := 0; late < 2 && r.Intn(2) == 0; late++ {
 		// a snapshot transaction that begins while the others are committing: reads the hot key,
 		// writes it, commits (judged by the linearizability fallback: its Begin either precedes a
 		// commit - then its own Commit must fail - or follows it - then it must read the new value)
-		tx := nt + 1
+		tx := nt + 1 + late
 		ops := []Op{{K: "yield", N: r.Intn(120)}, {K: "begin", Tx: tx, Level: 2 + r.Intn(2)}, {K: "get", Tx: tx, Key: hot}}
 		id++
 		ops = append(ops, Op{K: "set", Tx: tx, Key: hot, ID: id, Size: smallSize(r)}, Op{K: "commit", Tx: tx})
